@@ -24,6 +24,7 @@ import (
 	"time"
 
 	"github.com/failsafe-go/failsafe-go"
+	"github.com/failsafe-go/failsafe-go/retrypolicy"
 	"github.com/failsafe-go/failsafe-go/circuitbreaker"
 	"github.com/failsafe-go/failsafe-go/failsafegrpc"
 	"github.com/failsafe-go/failsafe-go/failsafehttp"
@@ -126,6 +127,7 @@ func (s *scriptedRT) RoundTrip(req *http.Request) (*http.Response, error) {
 	if req.Body != nil {
 		b, _ := io.ReadAll(req.Body)
 		o.Body = string(b)
+		req.Body.Close() // a RoundTripper closes the request body
 	}
 	s.mu.Lock()
 	s.log = append(s.log, o)
@@ -156,9 +158,47 @@ func (s *scriptedRT) RoundTrip(req *http.Request) (*http.Response, error) {
 		Body: &ctxBody{ctx: req.Context(), r: strings.NewReader(sp.Body), closed: &s.closed, mu: &s.mu}}, nil
 }
 
-type seekCloser struct{ *bytes.Reader }
+// seekCloser behaves like an *os.File: seekable, random access, and Close is real -- nothing can be read from it afterwards.
+// (The transport closes the body it is given when an attempt is over; the caller's body must survive that for the next attempt.)
+type seekCloser struct {
+	r      *bytes.Reader
+	mu     sync.Mutex
+	closed bool
+}
 
-func (seekCloser) Close() error { return nil }
+func newSeekCloser(b []byte) *seekCloser { return &seekCloser{r: bytes.NewReader(b)} }
+func (s *seekCloser) gone() error {
+	s.mu.Lock()
+	defer s.mu.Unlock()
+	if s.closed {
+		return os.ErrClosed
+	}
+	return nil
+}
+func (s *seekCloser) Read(p []byte) (int, error) {
+	if err := s.gone(); err != nil {
+		return 0, err
+	}
+	return s.r.Read(p)
+}
+func (s *seekCloser) ReadAt(p []byte, off int64) (int, error) {
+	if err := s.gone(); err != nil {
+		return 0, err
+	}
+	return s.r.ReadAt(p, off)
+}
+func (s *seekCloser) Seek(o int64, whence int) (int64, error) {
+	if err := s.gone(); err != nil {
+		return 0, err
+	}
+	return s.r.Seek(o, whence)
+}
+func (s *seekCloser) Close() error {
+	s.mu.Lock()
+	defer s.mu.Unlock()
+	s.closed = true
+	return nil
+}
 
 // pureSeeker can only Read, Seek and Close (no ReadAt)
 type pureSeeker struct{ r *bytes.Reader }
@@ -262,7 +302,7 @@ func runHTTPCase(t *testing.T, c httpCase) (o httpObs) {
 		var body io.Reader
 		switch c.BodyKind {
 		case "Seeker":
-			body = seekCloser{bytes.NewReader([]byte(c.Body))}
+			body = newSeekCloser([]byte(c.Body))
 		case "Stream":
 			body = streamOnly{strings.NewReader(c.Body)}
 		}
@@ -418,6 +458,7 @@ func (s *chunkRT) RoundTrip(req *http.Request) (*http.Response, error) {
 		io.CopyN(&buf, req.Body, int64(s.size/2))
 		time.Sleep(s.stall[k])
 		io.Copy(&buf, req.Body)
+		req.Body.Close() // a RoundTripper closes the request body
 	}
 	s.mu.Lock()
 	s.got[i] = buf.String()
@@ -475,7 +516,7 @@ func runOverlapCase(t *testing.T, c overlapCase) (o overlapObs) {
 		case "PureSeeker":
 			body = pureSeeker{bytes.NewReader([]byte(content))}
 		default:
-			body = seekCloser{bytes.NewReader([]byte(content))}
+			body = newSeekCloser([]byte(content))
 		}
 		req, err := http.NewRequestWithContext(ctx, "POST", "http://verif.invalid/overlap", body)
 		if err != nil {
@@ -959,6 +1000,70 @@ func driveCoreLeaks(t *testing.T, w *CaseWriter, rng *Rng) {
 			map[string]any{"scenario": "execution started with a context that is already done", "stack_depth": len(reqs[0].Stack), "leak": leak}, true, fmt.Sprint("pre", w.Total))
 		w.Stat("core=pre-cancelled")
 	})
+	// executions cancelled while a retry policy's own failure listener runs, then the hour
+	slowRetryListenerCancelled(rng, n/3, func(inst InstD, reqs []ReqD, _ string) {
+		late := 0
+		leak := leakOf(func() {
+			obs, _ := runHistory(t, inst, reqs)
+			if len(obs) > 0 {
+				late = obs[len(obs)-1].Late
+			}
+		})
+		if leak == "" && late > 0 {
+			leak = fmt.Sprintf("%d listener or function log entries were written during the hour after the last execution had completed (a timer left armed?)", late)
+		}
+		w.Add(func(id int) string { return fmt.Sprintf("CaseCore %d 6 %s", id, gBool(leak != "")) },
+			map[string]any{"scenario": "execution cancelled while the retry policy's failure listener runs", "stack_depth": len(reqs[0].Stack), "leak": leak}, true, fmt.Sprint("lsn", w.Total))
+		w.Stat("core=cancelled-in-failure-listener")
+	})
+	// asynchronous executions whose ExecutionResult nobody ever looks at (fire and forget), or that are cancelled and dropped:
+	// the goroutine the library started for the execution ends with the execution
+	for _, entry := range []string{"GetAsync", "GetWithExecutionAsync", "RunAsync", "RunWithExecutionAsync"} {
+		for _, how := range []string{"succeeds", "fails", "retried", "cancelled-and-dropped", "with-context"} {
+			leak := leakOf(func() {
+				synctest.Test(t, func(t *testing.T) {
+					var pols []failsafe.Policy[int]
+					if how == "retried" || how == "cancelled-and-dropped" {
+						pols = append(pols, retrypolicy.Builder[int]().WithMaxRetries(2).WithDelay(time.Second).Build())
+					}
+					ex := failsafe.NewExecutor[int](pols...).OnDone(func(failsafe.ExecutionDoneEvent[int]) {})
+					if how == "with-context" {
+						ctx, cancel := context.WithCancel(context.Background())
+						defer cancel()
+						ex = ex.WithContext(ctx)
+					}
+					fn := func() (int, error) {
+						time.Sleep(time.Millisecond)
+						if how == "succeeds" || how == "with-context" {
+							return 1, nil
+						}
+						return 0, errors.New("failed")
+					}
+					var ar failsafe.ExecutionResult[int]
+					switch entry {
+					case "GetAsync":
+						ar = ex.GetAsync(fn)
+					case "GetWithExecutionAsync":
+						ar = ex.GetWithExecutionAsync(func(failsafe.Execution[int]) (int, error) { return fn() })
+					case "RunAsync":
+						ar = ex.RunAsync(func() error { _, e := fn(); return e })
+					default:
+						ar = ex.RunWithExecutionAsync(func(failsafe.Execution[int]) error { _, e := fn(); return e })
+					}
+					if how == "cancelled-and-dropped" {
+						time.Sleep(500 * time.Millisecond)
+						ar.Cancel()
+					}
+					ar = nil
+					time.Sleep(time.Hour)
+					synctest.Wait()
+				})
+			})
+			w.Add(func(id int) string { return fmt.Sprintf("CaseCore %d 7 %s", id, gBool(leak != "")) },
+				map[string]any{"scenario": "asynchronous execution whose result is never collected", "entry": entry, "how": how, "leak": leak}, true, fmt.Sprint("forget", entry, how))
+			w.Stat("core=fire-and-forget")
+		}
+	}
 	// hedged executions, incl. cancelled ones and attempts that ignore the cancellation
 	for i := 0; i < n; i++ {
 		h := genHedgeCase(rng)
